@@ -6,7 +6,7 @@ import os
 import shutil
 
 from vlib import flow, lean, repo, stream
-from vlib.common import fresh_scratch, log
+from vlib.common import REPO, fresh_scratch, log
 from vlib.common import run as sh
 from checks import interpgen as G
 
@@ -33,7 +33,8 @@ MANIFEST = {
 }
 
 REQUIRED = ["KV.C13.z_incremental", "KV.C13.normalised", "KV.C13.formula", "KV.C13.ngram_union",
-            "KV.C13.single_identity", "KV.C13.spec_eq_tool", "KV.C13.formula_spec", "KV.C13.equal_orders_not_stuck", "KV.C13.abort_witness",
+            "KV.C13.single_identity", "KV.C13.spec_eq_tool", "KV.C13.formula_spec", "KV.C13.pass12_refines",
+            "KV.C13.vocab_union", "KV.C13.ngram_union_renumbered", "KV.C13.bse_roundtrip", "KV.C13.bse_no_ub", "KV.C13.bse_shift64_witness", "KV.C13.equal_orders_not_stuck", "KV.C13.abort_witness",
             "KV.C13.termination_fails_mixed_orders", "KV.C13.formula_real", "KV.C13.normalised_real",
             "KV.C13.interp_nonpos", "KV.C13.z_incremental_real"]
 
@@ -112,6 +113,9 @@ def check_hypotheses(m):
     g = G.model_grams(m)
     bad = []
     for ws, (p, b) in g.items():
+        if not (math.isfinite(p) and math.isfinite(b)):
+            # e.g. lmplz --discount_fallback on a degenerate corpus writes backoff(<s>) = -inf (C05/C06 territory)
+            bad.append("non-finite value in the input model: %r %r %r" % (ws, p, b))
         if len(ws) >= 2:
             if ws[:-1] not in g:
                 bad.append("not prefix-closed: %r" % (ws,))
@@ -223,7 +227,7 @@ def run_case(ctx, case, bins, dexe, wd, cap_ctx):
     # ---- driver: build, vocab, stuck, entries
     ops = G.driver_ops(models, wbits) + ["entries %d" % k for k in range(1, maxo + 1)]
     rc2, o2, e2 = stream.run_lines(dexe, ops, timeout=600)
-    if rc2 != 0 or len(o2) != len(ops) or "bad-op" in o2:
+    if rc2 != 0 or len(o2) != len(ops) or any(l.startswith("bad-op") for l in o2):
         r.status, r.what = "violation", "Lean driver failed on the case (rc=%s) %s" % (rc2, e2[-300:])
         r.detail = {"stream": "driver"}
         return r
@@ -445,6 +449,125 @@ def handle(ctx, case, r, bins, dexe, wd, cap_ctx):
     return True
 
 
+# ------------------------------------------------------------------------------------ stream `bse`
+def py_bse_length(bounds):
+    """independent evaluation of byte_length_ (bit fields never cross a 64-bit word)"""
+    full, shift = 0, 0
+    for b in bounds:
+        ln = 0 if b <= 1 else b.bit_length()
+        if shift + ln > 64:
+            full += 1
+            shift = 0
+        shift += ln
+    return full * 8 + (shift + 7) // 8
+
+
+def py_bse_shift64(bounds):
+    """does some entry get shift == 64 (a zero-width field right after a completely full word)?"""
+    shift = 0
+    for b in bounds:
+        ln = 0 if b <= 1 else b.bit_length()
+        if shift + ln > 64:
+            shift = 0
+        if shift >= 64:
+            return True
+        shift += ln
+    return False
+
+
+BSE_KEY = "bse-zero-width-field-shift-64"
+BSE_WITNESS = "bse " + " ".join(["2"] * 32 + ["1"]) + " | " + " ".join(["1"] * 32 + ["0"])
+
+
+def bse_stream(ctx, n_cases):
+    """BoundedSequenceEncoding: real header in-process (ASan/UBSan, exact-size heap buffer) vs the Lean model;
+    oracle: Decode(Encode(v)) = v for in-contract values and EncodedLength as computed independently.
+    Bound vectors that make the code shift by 64 (UB; theorem bse_shift64_witness) are run one by one: they must
+    either behave (repaired tree) or die exactly with UBSan's 'shift exponent 64' (known finding)."""
+    ok, hexe, lg = repo.harness("c13_bse.cc", extra=[REPO + "/lm/interpolate/bounded_sequence_encoding.cc",
+                                                     REPO + "/util/exception.cc", REPO + "/util/scoped.cc",
+                                                     REPO + "/util/integer_to_string.cc"])
+    if not ok:
+        return [lg], False
+    dexe = lean.driver_path("drv_C13")
+    rng = ctx.rng
+    ops, meta = [], []
+    ub_ops = [(BSE_WITNESS, [2] * 32 + [1], [1] * 32 + [0])]
+    for _ in range(n_cases):
+        n = rng.choice([0, 1, 2, 3, 3, 5, 8, 9, 16, 22, 33, 40, rng.randrange(0, 70)])
+        style = rng.choice(["orders", "orders", "orders2", "mixed", "big", "ones"])
+        if style == "orders":
+            bounds = [rng.randint(1, 6) for _ in range(n)]
+        elif style == "orders2":
+            bounds = [rng.randint(2, 6) for _ in range(n)]
+        elif style == "mixed":
+            bounds = [rng.choice([0, 1, 2, 3, 4, 7, 8, 15, 16, 127, 128, 255]) for _ in range(n)]
+        elif style == "big":
+            bounds = [rng.choice([127, 128, 200, 255]) for _ in range(n)]
+        else:
+            bounds = [1] * n
+        contract = rng.random() < 0.85
+        if contract:
+            # contract of the class: value < 2^bits(bound) (the caller passes from < bound)
+            vals = [rng.choice([0, b, max(b - 1, 0), rng.randint(0, b)]) if b >= 2 else 0 for b in bounds]
+        else:
+            vals = [rng.randint(0, 255) for _ in bounds]
+        op = "bse %s | %s" % (" ".join(map(str, bounds)), " ".join(map(str, vals)))
+        if py_bse_shift64(bounds):
+            if contract and len(ub_ops) < 12:
+                ub_ops.append((op, bounds, vals))
+            continue
+        ops.append(op)
+        meta.append((bounds, vals, contract))
+    found = False
+    (rc1, o1, e1), (rc2, o2, e2) = stream.both(hexe, dexe, ops)
+    if rc1 != 0 or len(o1) != len(ops):
+        small = stream.ddmin(ops, lambda l: stream.run_lines(hexe, l)[0] != 0)
+        ctx.violation("BoundedSequenceEncoding harness died (rc=%s): %s" % (rc1, e1[-600:]),
+                      {"stream": "bse", "ops": small[:20], "stderr": e1[-2000:]})
+        return [], True
+    for i, (bounds, vals, contract) in enumerate(meta):
+        ctx.count(("bse", ops[i]), nontrivial=len(bounds) >= 2)
+        ctx.hist("bse.n", min(len(bounds), 64) // 8 * 8)
+        ctx.hist("bse.contract", contract)
+        if not contract:
+            continue        # out of contract: only "does not crash / no sanitizer report" is observed
+        f = o1[i].split(" ")
+        want_len = py_bse_length(bounds)
+        if int(f[0]) != want_len or [int(x) for x in f[2:]] != vals:
+            ctx.violation("BoundedSequenceEncoding: Decode(Encode(v)) != v or wrong EncodedLength",
+                          {"stream": "bse", "ops": [ops[i]], "impl": o1[i], "expected_len": want_len, "expected": vals})
+            found = True
+            continue
+        if i >= len(o2) or o1[i] != o2[i]:
+            ctx.violation("model and implementation disagree on BoundedSequenceEncoding",
+                          {"stream": "bse", "ops": [ops[i]], "impl": o1[i], "model": o2[i] if i < len(o2) else None},
+                          no_input=not found)
+            found = True
+    # ---- the shift-by-64 class, one process per case
+    for op, bounds, vals in ub_ops:
+        rc, o, e = stream.run_lines(hexe, [op])
+        ctx.count(("bse", op), nontrivial=True)
+        ctx.hist("bse.shift64", "ubsan" if rc != 0 else "clean")
+        if rc != 0:
+            if "shift exponent 64" in e and "bounded_sequence_encoding.hh" in e:
+                if ctx.violation("BoundedSequenceEncoding shifts a uint64_t by 64 (undefined behaviour) for bounds %s"
+                                 % " ".join(map(str, bounds)),
+                                 {"stream": "bse", "ops": [op], "stderr": e[-800:]}, key=BSE_KEY):
+                    found = True
+            else:
+                ctx.violation("BoundedSequenceEncoding harness died (rc=%s): %s" % (rc, e[-400:]),
+                              {"stream": "bse", "ops": [op], "stderr": e[-2000:]})
+                found = True
+            continue
+        f = o[0].split(" ")
+        if int(f[0]) != py_bse_length(bounds) or [int(x) for x in f[2:]] != vals:
+            ctx.violation("BoundedSequenceEncoding: Decode(Encode(v)) != v or wrong EncodedLength",
+                          {"stream": "bse", "ops": [op], "impl": o[0], "expected": vals})
+            found = True
+    return [], found
+
+
 def build_tools():
     """repo.build with retries: the shared build cache is pruned by concurrent checks of other trees, which can
     delete a build directory while ninja is still writing into it."""
@@ -462,15 +585,17 @@ def build_tools():
 
 def run(ctx):
     problems, consts = flow.proof_phase(ctx, "C13", required=REQUIRED, drivers=["drv_C13"])
+    bse_problems, found_bse = bse_stream(ctx, 300 if ctx.tier == "quick" else 5000)
+    problems += bse_problems
     ok, bdir, lg = build_tools()
     if not ok:
         problems.append(lg)
-        flow.report_obligation_failures(ctx, problems, False)
+        flow.report_obligation_failures(ctx, problems, found_bse)
         return
     bins = (os.path.join(bdir, "bin", "lmplz"), os.path.join(bdir, "bin", "interpolate"))
     dexe = lean.driver_path("drv_C13")
     wd = fresh_scratch("c13_%d_%d" % (ctx.seed, os.getpid()))
-    found = False
+    found = found_bse
     try:
         quick = ctx.tier == "quick"
         n = 30 if quick else 400
@@ -487,8 +612,12 @@ def run(ctx):
                                            "formula: finding K appears repaired, known_findings entry is stale")
             log("  note: " + ctx.notes["witness_replay"])
         for i in range(n):
-            case = gen_case(ctx.rng, kinds[i] if i < len(kinds) else None)
-            r = run_case(ctx, case, bins, dexe, os.path.join(wd, "case"), cap_ctx)
+            for attempt in range(4):   # a generated tuple that breaks a stated hypothesis is replaced, not counted
+                case = gen_case(ctx.rng, kinds[i] if i < len(kinds) else None)
+                r = run_case(ctx, case, bins, dexe, os.path.join(wd, "case"), cap_ctx)
+                if r.status != "skip":
+                    break
+                ctx.hist("skipped", r.what.split(":")[0][:60])
             found |= handle(ctx, case, r, bins, dexe, os.path.join(wd, "case"), cap_ctx)
             if len(ctx.violations) >= 3:
                 break
